@@ -61,10 +61,10 @@ for pid in sorted(claimed):
 na = [{"property_id": p, "reason": "check not built yet in this session; planned (DESIGN.md §4)"} for p in sorted(claimed) if p not in built]
 m = {
  "version": 1,
- "setup_cmd": "cd harness && CARGO_NET_OFFLINE=true cargo build --release --offline",
+ "setup_cmd": "cd harness && CARGO_NET_OFFLINE=true cargo build --release --offline && CARGO_NET_OFFLINE=true cargo build --profile dbg --offline",
  "hooks": {"guard": "narsese_verif_hooks", "enable": "no hook exists: every property is observable through the public API, so /repo is built unmodified (cargo feature list untouched)", "baseline_off_cmd": "cd /repo && cargo test --workspace --no-fail-fast --offline", "source_commits": [], "add_only": True},
  "engines": [
-   {"name": "nvh", "path": "harness/", "serves_properties": [c["property_id"] for c in checks], "kind_free_text": "Rust binary: proptest TestRunner streams (seeded by VERIF_SEED, sharded over threads), small-scope enumerations, regression replays, known-finding probes, stall watchdog, evidence writer"},
+   {"name": "nvh", "path": "harness/", "serves_properties": [c["property_id"] for c in checks], "kind_free_text": "Rust binary: proptest TestRunner streams (seeded by VERIF_SEED, sharded over threads), small-scope enumerations, regression replays, known-finding probes, stall watchdog, evidence writer; built twice (optimised, and a replica with the narsese crate at opt-level 0 + debug assertions) and run in both builds by ./check"},
    {"name": "fuzz", "path": "harness/fuzz/", "serves_properties": ["C04", "C05", "C12"], "kind_free_text": "cargo-fuzz / libFuzzer targets enum_total and lexical_total with the oracles inside the target; run by ./fuzz_stage in the thorough tier"},
  ],
  "checks": checks,
